@@ -46,6 +46,13 @@ CHECKS = {
             "type and id match, a send returns Ok only through its completed channel, a mismatch ends the connection "
             "and fails every pending send, a well-behaved peer never causes a close and every send completes. Tied "
             "to the real sink by the same operation lists.", "section 5, C06"),
+    "C13": ("Coq theorems (Props/C13.v, 9) on the sink model, for every operation list outside the three recorded "
+            "finding classes (executable predicate Known: a woken waiter is dropped / is a ready() future / ends with a "
+            "local error): whenever a live sender is parked, the window is full counting the senders already woken, or "
+            "back-pressure is on (no lost wake-up); at quiescence every sender is done; a cancelled waiter at the head "
+            "is skipped; set_cap and back-pressure-off wake unconditionally; streamed sends resume; three refutation "
+            "witnesses for the finding classes. Tied to the real sinks by op lists driven to quiescence, incl. "
+            "cancelled waiters x every wake source.", "section 5, C13"),
     "C14": ("Coq theorems (Props/C14.v, 5) on the sink model: each release of a QoS 2 receipt (explicit or by drop) "
             "writes exactly one PUBREL with its own id, waits on the channel of its own id, leaves every other task "
             "and channel untouched, and completes on its own PUBCOMP; one recorded leniency (PUBCOMP before PUBREL is "
